@@ -1013,8 +1013,10 @@ class UserType(TupleType):
 
     @classmethod
     def apply_parameters(cls, subtypes, names):
-        keyspace = subtypes[0].cass_parameterized_type()  # when parsed from cassandra type, the keyspace is created as an unrecognized cass type; This gets the name back
-        udt_name = _name_from_hex_string(subtypes[1].cassname)
+        # the parser hands over tokens made of decimal digits only as ints (vector dimensions); a keyspace
+        # name or a hex-encoded type name may look like that too (e.g. "city" is 63697479)
+        keyspace, hex_name = [str(s) if isinstance(s, int) else s.cass_parameterized_type() for s in subtypes[:2]]  # when parsed from cassandra type, these are created as unrecognized cass types; This gets the names back
+        udt_name = _name_from_hex_string(hex_name)
         field_names = tuple(_name_from_hex_string(encoded_name) for encoded_name in names[2:])  # using tuple here to match what comes into make_udt_class from other sources (for caching equality test)
         return cls.make_udt_class(keyspace, udt_name, field_names, tuple(subtypes[2:]))
 
